@@ -687,7 +687,9 @@ func (r *Replica) addReference(ev J, ref *RefResult, tx *rctypes.Trx, resp abcit
 	p["gasUsed"], p["logs"], p["implLogs"] = LimbsU64(ref.GasUsed), ref.Logs, implLogs
 	p["create"] = rtypes.IsZeroAddress(tx.To)
 	ev["ref"] = p
-	if ref.OK {
+	// what the reference run burned excuses a loss of value only if the application executed the transaction too
+	// (the reference does not verify signatures: a refused transaction burns nothing)
+	if ref.OK && resp.Code == 0 {
 		ev["evmBurn"] = LimbsBig(ref.Burn)
 	}
 }
